@@ -54,6 +54,10 @@ def run(ctx, prop):
         args += ["-random", "600", "-gatek", "3", "-atrest", "8", "-panics", "60", "-burst", "24", "-burstper", "150", "-timeouts", "40", "-lastpanic", "150", "-burstprobe", "200000"]
     if prop != "C14":
         args += ["-panicmarathon", "30000"]      # the long one belongs to C14
+    if prop == "C08":
+        args += ["-burstprobe", "100000" if q else "600000"]   # a 1-in-10^4 hand-over order: the long run belongs to C08
+    else:
+        args += ["-burstprobe", "5000"]
     p = ctx.run(args, timeout=3000, ok_codes=(0, 66, 2), env={"GORACE": "halt_on_error=0"})
     if p.returncode == 2:
         # the harness process died: a Go run-time panic that escaped (or happened inside) the lane's own goroutines
